@@ -20,8 +20,8 @@ func init() {
 			"differential oracle: the expected packet for a frame is what rtcp.Unmarshal returns for that frame alone (C02/C04 judge single frames)",
 			"the frame alphabet is representative of adjacency effects; sequences longer than the bound are not explored",
 		},
-		BoundsQuick:    "~40 elements, all sequences of depth <= 3",
-		BoundsThorough: "~40 elements, all sequences of depth <= 4",
+		BoundsQuick:    "42 small elements, all sequences of depth <= 3; 9 large frames (64 KiB..256 KiB) alone, next to every element and around 8 representative frames",
+		BoundsThorough: "42 small elements, all sequences of depth <= 5 (1.3e8); 9 large frames (64 KiB..256 KiB) alone, next to every element and around 8 representative frames",
 	})
 }
 
@@ -105,7 +105,7 @@ func runC06(c *bx.Ctx) {
 	}
 	maxDepth := 3
 	if c.Thorough() {
-		maxDepth = 4
+		maxDepth = 5
 	}
 	c.Space("sequences")
 	if c.Mine() { // the empty datagram
